@@ -105,6 +105,15 @@ def verify(name, prop, wt):
 
 
 def run(names, all_checks):
+    global REPO
+    env_extra = {}
+    if "--scratch" in sys.argv:
+        # development mode: apply to the scratch worktree /tmp/repo-clean and use the scratch harness
+        # copy /tmp/hw (whose Cargo.toml points there); evidence goes to /tmp/ev
+        REPO = "/tmp/repo-clean"
+        os.makedirs("/tmp/ev", exist_ok=True)
+        env_extra = {"VERIF_HARNESS_DIR": "/tmp/hw", "VERIF_EVIDENCE_DIR": "/tmp/ev"}
+        os.environ.update(env_extra)
     code, out = sh("git status --porcelain", cwd=REPO)
     if out.strip():
         print("/repo working tree not clean; refusing")
